@@ -102,7 +102,9 @@ fn key_of(k: K) -> Key {
         2 => Key::new(KeyName::Char('b'), KeyMod::EMPTY),
         3 => Key::new(KeyName::Char('x'), KeyMod::CTRL),
         4 => Key::new(KeyName::F(1), KeyMod::ALT | KeyMod::SHIFT),
-        5 => Key::new(KeyName::Esc, KeyMod::EMPTY),
+        // differs from key 0 in letter case only (upper-case characters reach the map from the
+        // decoder, never from the chord parser): the map must keep the two apart
+        5 => Key::new(KeyName::Char('A'), KeyMod::EMPTY),
         // noise-only keys
         6 => Key::new(KeyName::Char('b'), KeyMod::ALT),
         _ => Key::new(KeyName::Enter, KeyMod::EMPTY),
@@ -1400,7 +1402,7 @@ impl Property for C18 {
     }
 
     fn rule(&self) -> String {
-        "generated, weights 5:7:50 — (Map) histories vec(register(chord of 0..=4 keys from a pool of 6 keys that share names and differ in modifiers) | register_override(other map built from 0..6 registrations), 0..12) with a distinct value per registration; after EVERY step all 1554 non-empty chords of length <=4 over the pool are looked up and for_each is compared with a dictionary model, and the return value of register is compared with what its doc comment promises; non-trivial = some registration superseded a bound proper prefix or bound extensions. \
+        "generated, weights 5:7:50 — (Map) histories vec(register(chord of 0..=4 keys from a pool of 6 keys that share names and differ in modifiers, two of them the same letter in lower and upper case) | register_override(other map built from 0..6 registrations), 0..12) with a distinct value per registration; after EVERY step all 1554 non-empty chords of length <=4 over the pool are looked up and for_each is compared with a dictionary model, and the return value of register is compared with what its doc comment promises; non-trivial = some registration superseded a bound proper prefix or bound extensions. \
          (Stream) the same histories on KeyMap and KeyMapHandler, then 0..8 segments typed key by key through lookup_state (state vector emptied first) and KeyMapHandler::handle (chained): a bound chord, optionally preceded by one key that begins no bound chord (from the pool or two keys never registered), that key optionally preceded by an abandoned proper prefix of a bound chord (the key is then one that occurs in no bound chord); non-trivial = a multi-key chord or an unbound key was typed. \
          In 3 of 5 Stream cases the SAME KeyMapHandler then lives through 1..=3 rebinds, each: with p=0.7 a proper prefix of a bound chord of 2+ keys is typed from idle and left pending (must not fire); then either (p=0.65) KeyMapHandler::clear() followed by a new history = the operations of the previous history selected by a 16-bit mask (all / none / random: a reloaded configuration) + 0..5 fresh operations, with values from a new range, or (p=0.35) 0..5 operations registered on top without clear; then 0..4 more segments against the new bindings (lookup_state runs on a fresh KeyMap holding the same bindings). Right after clear() the handler counts as idle, so the first segment carries both demands (signatures matcher/handler/after-clear/*); while a prefix is pending and nothing has reset the matcher, the next segment is forced to begin with a key that occurs in no bound chord and only the firing of the chord after it is demanded (matcher/handler/after-register/*). \
          (Parse) strings for FromStr of Key / KeyChord / KeyName: grammar-shaped (modifier and name tokens in mixed case, f+1..30 digits incl. usize::MAX and usize::MAX+1, quoted characters, characters whose lowercase changes byte length such as İ ẞ ǅ K, attributes joined by '+', keys joined by 1..3 spaces/tab/NBSP, leading/trailing spaces), the same with one arbitrary character inserted or replaced, and arbitrary Unicode strings; non-trivial = the string was accepted, so the print/parse round trip ran. \
